@@ -95,7 +95,8 @@ def gen_trace(seed, world, tier, mode=None, chunk=None):
     nmax = 6 if tier == "quick" else 10
     if mode is None:
         x = R.random()
-        mode = "caps" if x < 0.62 else "strided" if x < 0.86 else "lu_fail" if x < 0.93 else "caps_big"
+        mode = ("caps" if x < 0.58 else "strided" if x < 0.80 else "lu_fail" if x < 0.87
+                else "utri_zero" if x < 0.94 else "caps_big")
     steps = []
     tol = 10.0 ** -R.choice([2, 4, 6, 8, 10, 12])
     storage = R.choice(["dense", "dense", "sparse"])
@@ -117,6 +118,11 @@ def gen_trace(seed, world, tier, mode=None, chunk=None):
         _solve_steps(steps, sysd, 0, tol, "none", None, storage, False, R)
         c = _solve_steps(steps, sysd, 0, tol, "left_lu", None, storage, False, R)
         c["fault"] = {"lu_fail": True}
+    elif mode == "utri_zero":
+        sysd = gen_system(R, min(nmax, 6))
+        for idx in sorted({1, R.randint(1, 4), R.randint(1, 12), R.randint(1, 30)}):
+            c = _solve_steps(steps, sysd, 0, tol, R.choice(["none", "none", "left_lu"]), None, storage, False, R)
+            c["fault"] = {"utri_zero": idx}
     elif mode in ("sweep", "strided"):
         sysd = gen_system(R, 3 if mode == "sweep" else min(nmax, 6))
         prec = "left_lu" if (mode == "sweep" or R.random() < 0.7) else "none"
@@ -189,7 +195,9 @@ class Hooks(BaseHooks):
         tol, cap = cfg["tol"], cfg["max_iter"]
         prec = cfg.get("preconditioner") or "none"
         fault = step.get("fault") or {}
-        hard = ("line" in fault and rec.get("fault_fired")) or fault.get("lu_fail")
+        hard = ("line" in fault and rec.get("fault_fired")) or fault.get("lu_fail") \
+            or (fault.get("utri_zero") is not None and bool(rec["probes"].get("utri_zero_diag_inner")
+                                                           or rec["probes"].get("utri_zero_diag_last")))
         self.counts["solves"] += 1
         if rec["probes"].get("gmres_lucky_breakdown"):
             self.counts["breakdown_runs"] += 1
@@ -251,13 +259,15 @@ class Hooks(BaseHooks):
         if col:
             if not all(math.isfinite(c) for c in col):
                 viol.append(V("nan", i, f"non-finite residual history {col[:6]}"))
-            else:
+            elif fault.get("utri_zero") is None:
+                # (a forced zero diagonal makes one cycle's iterate non-optimal by
+                # construction; under that fault only oracles 1 and 2 are demanded)
                 for a, c in zip(col, col[1:]):
                     if c > a * (1 + 1e-10) + 1e-13 * max(1.0, meta["cond"]):
                         viol.append(V("history_monotone", i,
                                       f"residual history increases: {a:.6e} -> {c:.6e}"))
                         break
-                if prec == "none" and not hard and not bzero \
+                if prec == "none" and not hard and not bzero and fault.get("utri_zero") is None \
                         and abs(col[-1] - true) > 1e-9 * (1 + true) * max(1.0, meta["cond"] * 1e-3):
                     viol.append(V("history_last", i,
                                   f"last history entry {col[-1]:.6e} is not the residual of the "
@@ -267,7 +277,8 @@ class Hooks(BaseHooks):
             viol.append(V("liveness", i, f"iterations = {its} > n = {n}"))
         # oracle 5: bounded liveness once faults stop (also under forced LU failure:
         # the documented fallback is the unpreconditioned solve)
-        live_ok = (not ("line" in fault)) and cap is None and meta["cond"] <= 1e3 and tol >= 1e-10
+        live_ok = (not ("line" in fault)) and fault.get("utri_zero") is None and cap is None \
+            and meta["cond"] <= 1e3 and tol >= 1e-10
         if live_ok and not bzero:
             if not (true <= 10.0 * kappa * tol):
                 viol.append(V("liveness", i,
